@@ -48,7 +48,8 @@ fn iso_of(json: &Value) -> Option<(i32, u32, u32)> {
         if let Value::String(s) = l {
             let b = s.as_bytes();
             if s.len() == 10 && b[4] == b'-' && b[7] == b'-' {
-                if let (Ok(y), Ok(m), Ok(d)) = (s[0..4].parse(), s[5..7].parse(), s[8..10].parse()) {
+                if let (Ok(y), Ok(m), Ok(d)) = (s[0..4].parse(), s[5..7].parse(), s[8..10].parse())
+                {
                     return Some((y, m, d));
                 }
             }
@@ -83,26 +84,53 @@ pub fn oracle(c: &DateCase, obs: &mut Obs) -> Vec<Violation> {
             match &res {
                 Ok(v) => {
                     if !some {
-                        let why = if digits { "not-a-calendar-date" } else { "not-six-digits" };
-                        out.push(viol(format!("C11|{f}|invalid-accepted|{why}"), format!("{:?} accepted as {}", content, v.json)));
+                        let why = if digits {
+                            "not-a-calendar-date"
+                        } else {
+                            "not-six-digits"
+                        };
+                        out.push(viol(
+                            format!("C11|{f}|invalid-accepted|{why}"),
+                            format!("{:?} accepted as {}", content, v.json),
+                        ));
                         return out;
                     }
                     // the year the field chose must make the date real (Feb 29)
                     let iso = iso_of(&v.json);
                     if let Some((y, m, d)) = iso {
                         if !refs::valid_ymd(y, m, d) {
-                            out.push(viol(format!("C11|{f}|invalid-accepted|not-real-in-chosen-year"), format!("{:?} read as {y}-{m}-{d}", content)));
+                            out.push(viol(
+                                format!("C11|{f}|invalid-accepted|not-real-in-chosen-year"),
+                                format!("{:?} read as {y}-{m}-{d}", content),
+                            ));
                         }
                         let (_, mm, dd) = refs::split6(&c.date).unwrap();
-                        if m != mm || d != dd || (y % 100) as u32 != refs::split6(&c.date).unwrap().0 {
-                            out.push(viol(format!("C11|{f}|digits-misread"), format!("{:?} read as {y}-{m}-{d}", content)));
+                        if m != mm
+                            || d != dd
+                            || (y % 100) as u32 != refs::split6(&c.date).unwrap().0
+                        {
+                            out.push(viol(
+                                format!("C11|{f}|digits-misread"),
+                                format!("{:?} read as {y}-{m}-{d}", content),
+                            ));
                         }
                         // one meaning everywhere: same year as field 32A gives to the same six digits
                         if f != "Field32A" {
-                            if let Ok(r) = (field_ops("Field32A").parse)(&format!("{}USD1,00", c.date)) {
+                            if let Ok(r) =
+                                (field_ops("Field32A").parse)(&format!("{}USD1,00", c.date))
+                            {
                                 if let Some((ry, _, _)) = iso_of(&r.json) {
                                     if ry != y {
-                                        out.push(viol(format!("C11|{f}|differs-from-32A|{}", yy_class(&c.date)), format!("{} means {} in {f} but {} in 32A", c.date, y, ry)));
+                                        out.push(viol(
+                                            format!(
+                                                "C11|{f}|differs-from-32A|{}",
+                                                yy_class(&c.date)
+                                            ),
+                                            format!(
+                                                "{} means {} in {f} but {} in 32A",
+                                                c.date, y, ry
+                                            ),
+                                        ));
                                     }
                                 }
                             }
@@ -111,25 +139,45 @@ pub fn oracle(c: &DateCase, obs: &mut Obs) -> Vec<Violation> {
                     // serialising reproduces the digits
                     match split_swift(&v.swift) {
                         Some((_, cc)) if cc == content => {}
-                        other => out.push(viol(format!("C11|{f}|digits-changed"), format!("{:?} serialised as {:?}", content, other))),
+                        other => out.push(viol(
+                            format!("C11|{f}|digits-changed"),
+                            format!("{:?} serialised as {:?}", content, other),
+                        )),
                     }
                     // MT and JSON agree
                     match (ops.from_json)(&v.json) {
                         Ok(v2) => {
-                            if v2.swift != v.swift {
-                                out.push(viol(format!("C11|{f}|json-differs|{}", yy_class(&c.date)), format!("{:?}: MT {:?} but after JSON round trip {:?} (json {})", content, v.swift, v2.swift, v.json)));
+                            if v2.swift != v.swift || v2.debug != v.debug {
+                                out.push(viol(
+                                    format!("C11|{f}|json-differs|{}", yy_class(&c.date)),
+                                    format!(
+                                        "{:?}: MT {:?} but after JSON round trip {:?} (json {})",
+                                        content, v.swift, v2.swift, v.json
+                                    ),
+                                ));
                             }
                         }
                         Err(e) => {
                             if !e.is_panic() {
-                                out.push(viol(format!("C11|{f}|json-rejected"), format!("{:?}: own JSON {} rejected: {}", content, v.json, e.text())));
+                                out.push(viol(
+                                    format!("C11|{f}|json-rejected"),
+                                    format!(
+                                        "{:?}: own JSON {} rejected: {}",
+                                        content,
+                                        v.json,
+                                        e.text()
+                                    ),
+                                ));
                             }
                         }
                     }
                 }
                 Err(e) => {
                     if all && !e.is_panic() {
-                        out.push(viol(format!("C11|{f}|valid-rejected|{}", yy_class(&c.date)), format!("{:?} rejected: {}", content, e.text())));
+                        out.push(viol(
+                            format!("C11|{f}|valid-rejected|{}", yy_class(&c.date)),
+                            format!("{:?} rejected: {}", content, e.text()),
+                        ));
                     }
                 }
             }
@@ -138,31 +186,59 @@ pub fn oracle(c: &DateCase, obs: &mut Obs) -> Vec<Violation> {
             let valid = if c.kind == "hhmm" {
                 refs::valid_hhmm(&c.date)
             } else {
-                c.date.len() == 4 && c.date.bytes().all(|b| b.is_ascii_digit()) && refs::valid_ymd(2000, c.date[0..2].parse().unwrap(), c.date[2..4].parse().unwrap())
+                c.date.len() == 4
+                    && c.date.bytes().all(|b| b.is_ascii_digit())
+                    && refs::valid_ymd(
+                        2000,
+                        c.date[0..2].parse().unwrap(),
+                        c.date[2..4].parse().unwrap(),
+                    )
             };
-            let surely = if c.kind == "hhmm" { valid } else { c.date.len() == 4 && c.date.bytes().all(|b| b.is_ascii_digit()) && refs::valid_ymd(2001, c.date[0..2].parse().unwrap(), c.date[2..4].parse().unwrap()) };
+            let surely = if c.kind == "hhmm" {
+                valid
+            } else {
+                c.date.len() == 4
+                    && c.date.bytes().all(|b| b.is_ascii_digit())
+                    && refs::valid_ymd(
+                        2001,
+                        c.date[0..2].parse().unwrap(),
+                        c.date[2..4].parse().unwrap(),
+                    )
+            };
             if valid {
                 obs.nontrivial_str(&format!("{f}|{content}"));
             }
             match &res {
                 Ok(v) => {
                     if !valid {
-                        out.push(viol(format!("C11|{f}|invalid-accepted|{}", c.kind), format!("{:?} accepted as {}", content, v.json)));
+                        out.push(viol(
+                            format!("C11|{f}|invalid-accepted|{}", c.kind),
+                            format!("{:?} accepted as {}", content, v.json),
+                        ));
                     } else {
                         match split_swift(&v.swift) {
                             Some((_, cc)) if cc == content => {}
-                            other => out.push(viol(format!("C11|{f}|digits-changed|{}", c.kind), format!("{:?} serialised as {:?}", content, other))),
+                            other => out.push(viol(
+                                format!("C11|{f}|digits-changed|{}", c.kind),
+                                format!("{:?} serialised as {:?}", content, other),
+                            )),
                         }
                         if let Ok(v2) = (ops.from_json)(&v.json) {
                             if v2.swift != v.swift {
-                                out.push(viol(format!("C11|{f}|json-differs|{}", c.kind), format!("{:?} vs {:?}", v.swift, v2.swift)));
+                                out.push(viol(
+                                    format!("C11|{f}|json-differs|{}", c.kind),
+                                    format!("{:?} vs {:?}", v.swift, v2.swift),
+                                ));
                             }
                         }
                     }
                 }
                 Err(e) => {
                     if surely && !e.is_panic() {
-                        out.push(viol(format!("C11|{f}|valid-rejected|{}", c.kind), format!("{:?} rejected: {}", content, e.text())));
+                        out.push(viol(
+                            format!("C11|{f}|valid-rejected|{}", c.kind),
+                            format!("{:?} rejected: {}", content, e.text()),
+                        ));
                     }
                 }
             }
@@ -172,7 +248,14 @@ pub fn oracle(c: &DateCase, obs: &mut Obs) -> Vec<Violation> {
             let sign_ok = c.date.starts_with('+') || c.date.starts_with('-');
             let d = &c.date[1..];
             let digits = d.len() == 4 && d.bytes().all(|b| b.is_ascii_digit());
-            let (h, m) = if digits { (d[0..2].parse::<u32>().unwrap(), d[2..4].parse::<u32>().unwrap()) } else { (99, 99) };
+            let (h, m) = if digits {
+                (
+                    d[0..2].parse::<u32>().unwrap(),
+                    d[2..4].parse::<u32>().unwrap(),
+                )
+            } else {
+                (99, 99)
+            };
             let must_reject = !sign_ok || !digits || h > 23 || m > 59;
             let must_accept = sign_ok && digits && h <= 13 && m <= 59;
             if must_accept {
@@ -181,17 +264,26 @@ pub fn oracle(c: &DateCase, obs: &mut Obs) -> Vec<Violation> {
             match &res {
                 Ok(v) => {
                     if must_reject {
-                        out.push(viol(format!("C11|{f}|invalid-accepted|offset"), format!("{:?} accepted", content)));
+                        out.push(viol(
+                            format!("C11|{f}|invalid-accepted|offset"),
+                            format!("{:?} accepted", content),
+                        ));
                     } else {
                         match split_swift(&v.swift) {
                             Some((_, cc)) if cc == content => {}
-                            other => out.push(viol(format!("C11|{f}|digits-changed|offset"), format!("{:?} serialised as {:?}", content, other))),
+                            other => out.push(viol(
+                                format!("C11|{f}|digits-changed|offset"),
+                                format!("{:?} serialised as {:?}", content, other),
+                            )),
                         }
                     }
                 }
                 Err(e) => {
                     if must_accept && !e.is_panic() {
-                        out.push(viol(format!("C11|{f}|valid-rejected|offset"), format!("{:?} rejected: {}", content, e.text())));
+                        out.push(viol(
+                            format!("C11|{f}|valid-rejected|offset"),
+                            format!("{:?} rejected: {}", content, e.text()),
+                        ));
                     }
                 }
             }
@@ -213,18 +305,47 @@ pub fn run(ctx: &Ctx) {
         &|sh| {
             let (f, p, s) = DATE_FIELDS[sh / 100];
             let yy = sh % 100;
-            (0..10000).map(|k| DateCase { field: f.to_string(), prefix: p.to_string(), date: format!("{:02}{:04}", yy, k), suffix: s.to_string(), kind: "date6".into() }).collect()
+            (0..10000)
+                .map(|k| DateCase {
+                    field: f.to_string(),
+                    prefix: p.to_string(),
+                    date: format!("{:02}{:04}", yy, k),
+                    suffix: s.to_string(),
+                    kind: "date6".into(),
+                })
+                .collect()
         },
         &oracle,
         &to_json,
     );
-    let near: Vec<&str> = vec!["+1+2+3", " 10101", "1 0101", "24010 ", "٢٤٠١٠١", "24-101", "2401.1", "24011", "2401011", "ABCDEF", "-10101", "2４0101"];
+    let near: Vec<&str> = vec![
+        "+1+2+3",
+        " 10101",
+        "1 0101",
+        "24010 ",
+        "٢٤٠١٠١",
+        "24-101",
+        "2401.1",
+        "24011",
+        "2401011",
+        "ABCDEF",
+        "-10101",
+        "2４0101",
+    ];
     ctx.run_enumerated(
         "near-miss",
         DATE_FIELDS.len(),
         &|sh| {
             let (f, p, s) = DATE_FIELDS[sh];
-            near.iter().map(|d| DateCase { field: f.to_string(), prefix: p.to_string(), date: d.to_string(), suffix: s.to_string(), kind: "date6".into() }).collect()
+            near.iter()
+                .map(|d| DateCase {
+                    field: f.to_string(),
+                    prefix: p.to_string(),
+                    date: d.to_string(),
+                    suffix: s.to_string(),
+                    kind: "date6".into(),
+                })
+                .collect()
         },
         &oracle,
         &to_json,
@@ -233,12 +354,61 @@ pub fn run(ctx: &Ctx) {
         "times",
         6,
         &|sh| match sh {
-            0 => (0..10000).map(|k| DateCase { field: "Field13C".into(), prefix: "/SNDTIME/".into(), date: format!("{:04}", k), suffix: "+0100".into(), kind: "hhmm".into() }).collect(),
-            1 => (0..10000).map(|k| DateCase { field: "Field13D".into(), prefix: "240101".into(), date: format!("{:04}", k), suffix: "+0100".into(), kind: "hhmm".into() }).collect(),
-            2 => (0..20000).map(|k| DateCase { field: "Field13C".into(), prefix: "/CLSTIME/1200".into(), date: format!("{}{:04}", if k < 10000 { "+" } else { "-" }, k % 10000), suffix: "".into(), kind: "offset".into() }).collect(),
-            3 => (0..20000).map(|k| DateCase { field: "Field13D".into(), prefix: "2401011200".into(), date: format!("{}{:04}", if k < 10000 { "+" } else { "-" }, k % 10000), suffix: "".into(), kind: "offset".into() }).collect(),
-            4 => (0..10000).map(|k| DateCase { field: "Field61".into(), prefix: "240101".into(), date: format!("{:04}", k), suffix: "C1,00NTRFREF".into(), kind: "mmdd".into() }).collect(),
-            _ => ["*0100", "=0100", " 0100", "10100"].iter().map(|d| DateCase { field: "Field13C".into(), prefix: "/SNDTIME/1200".into(), date: d.to_string(), suffix: "".into(), kind: "offset".into() }).collect(),
+            0 => (0..10000)
+                .map(|k| DateCase {
+                    field: "Field13C".into(),
+                    prefix: "/SNDTIME/".into(),
+                    date: format!("{:04}", k),
+                    suffix: "+0100".into(),
+                    kind: "hhmm".into(),
+                })
+                .collect(),
+            1 => (0..10000)
+                .map(|k| DateCase {
+                    field: "Field13D".into(),
+                    prefix: "240101".into(),
+                    date: format!("{:04}", k),
+                    suffix: "+0100".into(),
+                    kind: "hhmm".into(),
+                })
+                .collect(),
+            2 => (0..20000)
+                .map(|k| DateCase {
+                    field: "Field13C".into(),
+                    prefix: "/CLSTIME/1200".into(),
+                    date: format!("{}{:04}", if k < 10000 { "+" } else { "-" }, k % 10000),
+                    suffix: "".into(),
+                    kind: "offset".into(),
+                })
+                .collect(),
+            3 => (0..20000)
+                .map(|k| DateCase {
+                    field: "Field13D".into(),
+                    prefix: "2401011200".into(),
+                    date: format!("{}{:04}", if k < 10000 { "+" } else { "-" }, k % 10000),
+                    suffix: "".into(),
+                    kind: "offset".into(),
+                })
+                .collect(),
+            4 => (0..10000)
+                .map(|k| DateCase {
+                    field: "Field61".into(),
+                    prefix: "240101".into(),
+                    date: format!("{:04}", k),
+                    suffix: "C1,00NTRFREF".into(),
+                    kind: "mmdd".into(),
+                })
+                .collect(),
+            _ => ["*0100", "=0100", " 0100", "10100"]
+                .iter()
+                .map(|d| DateCase {
+                    field: "Field13C".into(),
+                    prefix: "/SNDTIME/1200".into(),
+                    date: d.to_string(),
+                    suffix: "".into(),
+                    kind: "offset".into(),
+                })
+                .collect(),
         },
         &oracle,
         &to_json,
